@@ -54,9 +54,16 @@ type universe struct {
 	repos    map[string]*fakeRepo // by repository address
 	versions map[string][]*uVersion // by project path, ascending semver order
 	paths    []string
+	// pseudo holds the content of pseudo-versions (a project path at an untagged revision) that reference
+	// resolution of a ref query has produced, keyed "path@version"
+	pseudo map[string]*uVersion
+	devs   []*uVersion // untagged revisions that change a project's configuration
 }
 
 func (u *universe) find(p, v string) *uVersion {
+	if x, ok := u.pseudo[p+"@"+v]; ok {
+		return x
+	}
 	for _, x := range u.versions[p] {
 		if x.Version == v {
 			return x
@@ -108,7 +115,7 @@ func (r *fakeRepo) ResolveRef(ctx context.Context, ref string) (string, error) {
 }
 func (r *fakeRepo) GetRevision(ctx context.Context, id string) (vcs.Revision, error) {
 	for _, rev := range r.revs {
-		if rev.id == id {
+		if rev.id == id || rev.PseudoID() == id { // a pseudo-version names its revision by the abbreviated id
 			return rev, nil
 		}
 	}
@@ -116,8 +123,8 @@ func (r *fakeRepo) GetRevision(ctx context.Context, id string) (vcs.Revision, er
 }
 func (r *fakeRepo) FetchRevision(ctx context.Context, projectPath string, revision vcs.Revision, destDir string) error {
 	r.fetches++
-	uv := r.byRev[revision.ID()]
-	if uv == nil || uv.projDir != projectPath {
+	uv := r.contentAt(projectPath, revision.ID())
+	if uv == nil {
 		return fmt.Errorf("no project %q at revision %s", projectPath, revision.ID())
 	}
 	reqs := map[string]project.RequirementConfig{}
@@ -131,8 +138,25 @@ func (r *fakeRepo) FetchRevision(ctx context.Context, projectPath string, revisi
 	return project.WriteConfigFile(filepath.Join(dir, "dawn.toml"), &project.Config{Name: uv.Name, Version: uv.Version, Requirements: reqs})
 }
 
+// contentAt: the repository is a linear history of commits, each of which rewrites one project directory; the content of a
+// project directory at a revision is what the latest commit up to it wrote there (nil = the directory does not exist yet).
+func (r *fakeRepo) contentAt(projDir, revID string) *uVersion {
+	n := -1
+	for _, rev := range r.revs {
+		if rev.id == revID || rev.PseudoID() == revID {
+			n = rev.n
+		}
+	}
+	for i := n; i >= 0; i-- {
+		if uv := r.byRev[r.revs[i].id]; uv != nil && uv.projDir == projDir {
+			return uv
+		}
+	}
+	return nil
+}
+
 func genUniverse(r *rand.Rand) *universe {
-	u := &universe{repos: map[string]*fakeRepo{}, versions: map[string][]*uVersion{}}
+	u := &universe{repos: map[string]*fakeRepo{}, versions: map[string][]*uVersion{}, pseudo: map[string]*uVersion{}}
 	nrepo := 1 + r.IntN(3)
 	nproj := 2 + r.IntN(9)
 	type pd struct {
@@ -194,7 +218,7 @@ func genUniverse(r *rand.Rand) *universe {
 	}
 	u.finish(all, r)
 	// requirement edges: diamonds and cycles
-	for _, uv := range all {
+	for _, uv := range append(append([]*uVersion{}, all...), u.devs...) {
 		for k := r.IntN(4); k > 0; k-- {
 			q := all[r.IntN(len(all))]
 			if q.Path == uv.Path {
@@ -243,6 +267,20 @@ func (u *universe) finish(all []*uVersion, r *rand.Rand) {
 		repo.tags = append(repo.tags, &vcs.Version{Version: module.Version{Path: uv.Path, Version: uv.Version}, ProjectPath: uv.projDir, RevisionID: rev.id})
 		repo.refs[uv.projDir+"/"+uv.Version] = rev.id
 		repo.refs["main"] = rev.id
+		if r.IntN(3) == 0 {
+			repo.refs[fmt.Sprintf("tag%d", len(repo.refs))] = rev.id // a branch that points exactly at a tagged revision
+		}
+		if r.IntN(3) == 0 {
+			// an untagged commit that rewrites this project's configuration (its requirements are filled in with the others')
+			dv := &uVersion{Path: uv.Path, Version: uv.Version, Name: uv.Name, projDir: uv.projDir}
+			drev := &fakeRev{id: fmt.Sprintf("%s-rev%d", path.Base(addr), len(repo.revs)), n: len(repo.revs), repo: repo}
+			repo.revs = append(repo.revs, drev)
+			dv.rev = drev.id
+			repo.byRev[drev.id] = dv
+			repo.refs[fmt.Sprintf("dev%d", len(repo.refs))] = drev.id
+			repo.refs["main"] = drev.id
+			u.devs = append(u.devs, dv)
+		}
 	}
 	for _, repo := range u.repos {
 		sort.SliceStable(repo.tags, func(i, j int) bool { return semver.Compare(repo.tags[i].Version.Version, repo.tags[j].Version.Version) < 0 })
@@ -257,7 +295,7 @@ func majorOf(v string) int {
 
 // specUniverse builds a universe from "path version -> requirements" lines (one repository).
 func specUniverse(spec map[string][]string) *universe {
-	u := &universe{repos: map[string]*fakeRepo{}, versions: map[string][]*uVersion{}}
+	u := &universe{repos: map[string]*fakeRepo{}, versions: map[string][]*uVersion{}, pseudo: map[string]*uVersion{}}
 	addr := "github.com/org/r0"
 	u.repos[addr] = &fakeRepo{addr: addr, byRev: map[string]*uVersion{}, refs: map[string]string{}}
 	var all []*uVersion
@@ -369,10 +407,28 @@ func (u *universe) genQuery(r *rand.Rand, bl map[string]string) qspec {
 	}
 	vs := u.versions[p]
 	v := vs[r.IntN(len(vs))].Version
-	kinds := []string{"latest", "bare", "upgrade", "patch", "exact", "prefix", "lt", "lte", "gt", "gte"}
+	kinds := []string{"latest", "bare", "upgrade", "patch", "exact", "prefix", "lt", "lte", "gt", "gte", "ref", "ref"}
 	k := kinds[r.IntN(len(kinds))]
 	q := qspec{path: p, kind: k, arg: v}
 	switch k {
+	case "ref":
+		// a branch of the project's repository: one pointing exactly at a tagged revision, one at an untagged commit, the
+		// default branch, or (rarely) one that does not exist
+		// (only branches on which the project's directory exists: what a ref means for a project that is not there is not
+		// something the property speaks about)
+		repo := u.repoOf(p)
+		var names []string
+		for n, rid := range repo.refs {
+			if !strings.Contains(n, "/") && repo.contentAt(vs[0].projDir, rid) != nil {
+				names = append(names, n)
+			}
+		}
+		sort.Strings(names)
+		q.arg = "nosuchbranch"
+		if len(names) > 0 && r.IntN(12) != 0 {
+			q.arg = names[r.IntN(len(names))]
+		}
+		q.text = p + "@" + q.arg
 	case "latest":
 		q.text = p + "@latest"
 	case "bare":
@@ -429,6 +485,8 @@ func (u *universe) refResolve(q qspec, bl map[string]string) string {
 		return out
 	}
 	switch q.kind {
+	case "ref":
+		return u.refResolveRef(q)
 	case "latest", "bare":
 		return latest()
 	case "upgrade":
@@ -465,6 +523,59 @@ func (u *universe) refResolve(q qspec, bl map[string]string) string {
 	return ""
 }
 
+func (u *universe) repoOf(p string) *fakeRepo {
+	return u.repos[strings.Join(strings.Split(p, "/")[:3], "/")]
+}
+
+// refResolveRef: a ref names a revision; if that revision carries a tag of the queried project (path and major line) the
+// answer is the tagged version, otherwise a pseudo-version built on the closest tagged ancestor of that project and major line
+// (or on the bare major when there is none). "" when the ref or the project's directory does not exist at that revision.
+func (u *universe) refResolveRef(q qspec) string {
+	repo := u.repoOf(q.path)
+	revID, ok := repo.refs[q.arg]
+	if !ok {
+		return ""
+	}
+	var rev *fakeRev
+	for _, x := range repo.revs {
+		if x.id == revID {
+			rev = x
+		}
+	}
+	_, major := project.SplitPathVersion(q.path)
+	matches := func(v string) bool {
+		m := semver.Major(v)
+		return m == major || major == "" && (m == "v0" || m == "v1")
+	}
+	base := ""
+	for i := rev.n; i >= 0 && base == ""; i-- {
+		for _, t := range repo.tags {
+			if t.RevisionID == repo.revs[i].id && t.Version.Path == q.path && matches(t.Version.Version) {
+				if i == rev.n {
+					return t.Version.Version // exactly tagged
+				}
+				base = t.Version.Version
+			}
+		}
+	}
+	older := base
+	if older == "" {
+		older = major
+	}
+	pv := module.PseudoVersion(major, older, rev.When(), rev.PseudoID())
+	// the content of that pseudo-version: the project's directory at that revision
+	var projDir string
+	for _, v := range u.versions[q.path] {
+		projDir = v.projDir
+	}
+	content := repo.contentAt(projDir, rev.id)
+	if content == nil {
+		return ""
+	}
+	u.pseudo[q.path+"@"+pv] = &uVersion{Path: q.path, Version: pv, Reqs: content.Reqs, Name: content.Name, projDir: projDir}
+	return pv
+}
+
 // ---- the cases --------------------------------------------------------------------------------
 
 // c11Named runs the deterministic scenarios of C11 (known findings live here).
@@ -493,6 +604,46 @@ func c11Named(c *core.Ctx, id string) {
 		c.Distinct(id + "/second")
 		if err != nil || !reflect.DeepEqual(first, second) {
 			c.Violation(id, id, "repeating-the-operation-changes-the-result", map[string]any{"query": q, "root": cfg.Requirements, "first_result": first, "second_result": second, "second_error": fmt.Sprint(err), "universe": u.describe()})
+		}
+	case "named/ref-at-the-newest-tagged-revision":
+		// a branch that points exactly at the most recently tagged revision of a project with older tags resolves to that
+		// tag (not to a pseudo-version built on an older tag)
+		u := specUniverse(map[string][]string{"a v1.0.0": nil, "a v1.1.0": nil, "a v1.2.0": nil, "b v1.0.0": nil})
+		repo := u.repos["github.com/org/r0"]
+		var newest *vcs.Version
+		newestN := -1
+		for _, t := range repo.tags {
+			for _, rev := range repo.revs {
+				if rev.id == t.RevisionID && t.Version.Path == "github.com/org/r0/a" && rev.n > newestN {
+					newest, newestN = t, rev.n
+				}
+			}
+		}
+		repo.refs["release"] = newest.RevisionID
+		cfg := &project.Config{Name: "root", Requirements: map[string]project.RequirementConfig{"b": {Path: "github.com/org/r0/b", Version: "v1.0.0"}}}
+		res := mvs.NewResolver(filepath.Join(base, "cache"), u.dialer(), nil)
+		out, err := mvs.Get(ctx, cloneCfg(cfg), res, "github.com/org/r0/a@release")
+		c.Eval(id)
+		c.Distinct(id)
+		got := ""
+		for _, rq := range out {
+			if rq.Path == "github.com/org/r0/a" {
+				got = rq.Version
+			}
+		}
+		if err != nil || got != newest.Version.Version {
+			c.Violation(id, id, "upgrade-does-not-reach-the-resolved-version", map[string]any{"query": "github.com/org/r0/a@release", "branch_points_at_the_revision_tagged": newest.Version.Version,
+				"result": out, "error": fmt.Sprint(err), "tags_in_revision_order": func() []string {
+					var o []string
+					for _, rev := range repo.revs {
+						for _, t := range repo.tags {
+							if t.RevisionID == rev.id {
+								o = append(o, fmt.Sprintf("%s: %s %s", rev.id, t.Version.Path, t.Version.Version))
+							}
+						}
+					}
+					return o
+				}()})
 		}
 	case "named/get-lands-above-resolved-version":
 		// a@v1.1.0 requires c@v1.0.0, which requires a@v1.2.0: "get a@v1.1.0" lands on v1.2.0, and
@@ -785,7 +936,7 @@ func runMVS(c *core.Ctx, which string) {
 			"forming diamonds and cycles; root sets of 1-6 requirements; each universe resolved with 3 fresh resolvers and cache directories (one with permuted requirement names) and twice warm; " +
 			"oracle: independent reachability/max reference; non-trivial = the build list contains a project that is not a root requirement; distinct = distinct (universe, build list)")
 	} else {
-		c.SetRule("the same universes x sequences of 8-12 operations (get with latest/bare/upgrade/patch/exact/prefix/<,<=,>,>= queries, tidy, upgrade-all); oracle: re-resolution with BuildList " +
+		c.SetRule("the same universes x sequences of 8-12 operations (get with latest/bare/upgrade/patch/exact/prefix/<,<=,>,>= and ref queries - branches at tagged and untagged revisions -, tidy, upgrade-all); oracle: re-resolution with BuildList " +
 			"and the independent reference, the resolved version of each query recomputed from the generated tag list, monotone comparisons per path, name preservation, idempotence; " +
 			"termination restated as bounded progress: an operation (median < 10 ms) that has not returned after 60 s with a goroutine inside internal/mvs or the mvs library is a violation; " +
 			"non-trivial = an operation that changed the build list (or a tidy/upgrade-all); distinct = distinct (universe, step)")
@@ -796,7 +947,7 @@ func runMVS(c *core.Ctx, which string) {
 		n = c.N(300, 10000)
 	}
 	var ids []string
-	for _, nm := range []string{"named/get-lands-above-resolved-version", "named/patch-repeated-moves-to-prerelease"} {
+	for _, nm := range []string{"named/get-lands-above-resolved-version", "named/patch-repeated-moves-to-prerelease", "named/ref-at-the-newest-tagged-revision"} {
 		if which == "C11" && c.Want(nm) {
 			ids = append(ids, nm)
 		}
